@@ -845,6 +845,26 @@ func clStoreCursorsClosed(c *Ctx) {
 			}
 		}
 		if kept {
+			// handed to a snapshot iterator: every path that does not return that iterator must close the cursor
+			kfi := p.Info(p.Root(fn))
+			n++
+			leak := kfi.PathAvoiding(s, func(x ssa.Instruction) bool {
+				r, isR := x.(*ssa.Return)
+				if !isR || r.Block() == fn.Recover {
+					return false
+				}
+				for i := range r.Results {
+					if isNilConst(kfi.RetVal(r, i)) {
+						return true
+					}
+				}
+				return len(r.Results) == 0 && false
+			}, func(x ssa.Instruction) bool {
+				cc := callOf(x)
+				return cc != nil && p.CallsAny(x, itClose) && strip(cc.Args[0]) == ssa.Value(call)
+			})
+			c.Check(leak == nil, fn, s, cnt.in(fn, "a cursor opened for a snapshot iterator is closed when no iterator is handed out"),
+				"the store cursor (and its barrier session) is opened before the snapshot reference is known to be available and is leaked when it is not: that session never terminates and reclamation stops for ever")
 			continue
 		}
 		n++
